@@ -35,7 +35,9 @@ func init() {
 	})
 }
 
-var c14Relays = []string{"", "rs", "a b", "a+b", "a&b=c", "100%", "%41%zz", "é/?#[]@", " lead and trail ", "x=y&SigAlg=evil&Signature=AAAA", strings.Repeat("r", 4096), "tab\tnl\ncr\r", "~!*'();:@$,", "RelayState=1&SAMLRequest=zzz", " ", "\t", "\r\n", "\u00a0", "\u3000 "}
+var c14Relays = []string{"", "rs", "a b", "a+b", "a&b=c", "100%", "%41%zz", "é/?#[]@", " lead and trail ", "x=y&SigAlg=evil&Signature=AAAA", strings.Repeat("r", 4096), "tab\tnl\ncr\r", "~!*'();:@$,", "RelayState=1&SAMLRequest=zzz", " ", "\t", "\r\n", "\u00a0", "\u3000 ",
+	// nothing but unreserved characters and slashes (a path): no escaping needed anywhere except for '/'
+	"/app/home", "2024/10/03", "a/b", "path/to~x.y-z_/", "/"}
 
 // draw order: builder, relay, signRequests, then DrawOut
 func c14Directed(tier string) [][]uint64 {
@@ -69,6 +71,9 @@ func c14Run(r *core.Run) {
 	if !r.Failed() && r.Harness == "" && t.Int(3, "c14.again") == 1 {
 		// the same SP produces a second redirect (other relay state): nothing may accumulate
 		r.Fault("second_redirect_on_same_sp")
+		if t.Int(2, "c14.rotate") == 1 {
+			o.RotateFieldSigningStore(r)
+		}
 		c14Measure(r, o, builder, c14Relays[t.Int(len(c14Relays), "c14.relay2")], signReq, decor)
 	}
 }
